@@ -682,4 +682,7 @@ if __name__ == '__main__':
         sys.exit(main_replay(pid, a[2]))
     tier = a[1] if len(a) > 1 else os.environ.get('VERIF_TIER', 'quick')
     seed = int(os.environ.get('VERIF_SEED', '1'))
-    sys.exit(main_check(pid, tier, seed))
+    # two checks of one property share build/<ID>/ (case files, model shards): serialise them
+    with Lock('check-' + pid):
+        rc = main_check(pid, tier, seed)
+    sys.exit(rc)
